@@ -48,6 +48,8 @@ type hstream struct {
 	wire    []byte   // bytes the stream accepted (what a peer would have received)
 	wmode   int      // write fault in force (wm* constants)
 	wfaults int      // Write calls that returned an error or made no progress
+	blockedW int     // Write calls blocked right now (wmBlock)
+	wcond   *sync.Cond
 	cerr    error    // returned by Close
 	closes  int
 	yield   bool // Write yields to other goroutines before recording (C10)
@@ -57,6 +59,7 @@ type hstream struct {
 func newHStream() *hstream {
 	s := &hstream{}
 	s.cond = sync.NewCond(&s.mu)
+	s.wcond = sync.NewCond(&s.mu)
 	return s
 }
 
@@ -86,10 +89,11 @@ const (
 	wmNoProgress        // (0, nil)
 	wmChunked           // (min(5, len(p)), nil): healthy, but the frame leaves in pieces
 	wmFullEOF           // (len(p), io.EOF): everything written, then the peer closed
+	wmBlock             // the peer does not read: Write blocks until the stream is closed, then (and afterwards) (0, io.ErrClosedPipe)
 	wmCount
 )
 
-var wmNames = []string{"ok", "closed-pipe", "partial", "eof", "no-progress", "chunked", "full-then-eof"}
+var wmNames = []string{"ok", "closed-pipe", "partial", "eof", "no-progress", "chunked", "full-then-eof", "blocks-until-close"}
 
 const wmPartialLen = 7
 const wmChunkLen = 5
@@ -97,9 +101,17 @@ const wmChunkLen = 5
 func (s *hstream) Write(p []byte) (int, error) {
 	s.mu.Lock()
 	defer s.mu.Unlock()
+	if s.wmode == wmBlock && s.closes == 0 {
+		s.blockedW++
+		s.cond.Broadcast()
+		for s.wmode == wmBlock && s.closes == 0 {
+			s.wcond.Wait()
+		}
+		s.blockedW--
+	}
 	n, err := len(p), error(nil)
 	switch s.wmode {
-	case wmClosedPipe:
+	case wmClosedPipe, wmBlock:
 		n, err = 0, io.ErrClosedPipe
 	case wmPartial:
 		if n > wmPartialLen {
@@ -131,6 +143,7 @@ func (s *hstream) Write(p []byte) (int, error) {
 func (s *hstream) setWriteMode(m int) {
 	s.mu.Lock()
 	s.wmode = m
+	s.wcond.Broadcast()
 	s.mu.Unlock()
 }
 func (s *hstream) setCloseErr(err error) {
@@ -143,6 +156,7 @@ func (s *hstream) Close() error {
 	s.mu.Lock()
 	defer s.mu.Unlock()
 	s.closes++
+	s.wcond.Broadcast()
 	return s.cerr
 }
 func (s *hstream) String() string           { return "harness://stream" }
@@ -176,6 +190,44 @@ func (s *hstream) waitIdle(d time.Duration) bool {
 		s.cond.Wait()
 	}
 	return true
+}
+// waitQuiet: like waitIdle, but also returns when a Write of the endpoint is blocked (blocked == true).
+// stop (may be nil) ends the wait when it is closed or receives.
+func (s *hstream) waitQuiet(d time.Duration, needIdle bool, stop <-chan struct{}) (blocked bool, ok bool) {
+	timedOut, stopped := false, false
+	t := time.AfterFunc(d, func() { s.mu.Lock(); timedOut = true; s.cond.Broadcast(); s.mu.Unlock() })
+	defer t.Stop()
+	quit := make(chan struct{})
+	defer close(quit)
+	if stop != nil {
+		go func() {
+			select {
+			case <-stop:
+				s.mu.Lock()
+				stopped = true
+				s.cond.Broadcast()
+				s.mu.Unlock()
+			case <-quit:
+			}
+		}()
+	}
+	s.mu.Lock()
+	defer s.mu.Unlock()
+	for {
+		if s.blockedW > 0 {
+			return true, true
+		}
+		if needIdle && s.idle && len(s.buf) == 0 {
+			return false, true
+		}
+		if stopped {
+			return false, true
+		}
+		if timedOut {
+			return false, false
+		}
+		s.cond.Wait()
+	}
 }
 func (s *hstream) snapshot() (w [][]byte, wire []byte, closes int) {
 	s.mu.Lock()
@@ -484,7 +536,18 @@ func noteHang() {
 	}
 }
 
+// a dispatch that has not returned: it waits in the stream's Write (wmBlock)
+type pendingMsg struct {
+	o                sop
+	before           map[*hh]int
+	done             chan struct{} // direct mode: closed when dispatch returned
+	res              string        // direct mode: "" or "panic: ..."
+	d                int           // direct mode: class of the value dispatch returned
+	wBefore, fBefore int
+}
+
 type runner17 struct {
+	pending *pendingMsg
 	e        net.EndPoint
 	dispatch func(*net.Message) error
 	process  func()
@@ -670,10 +733,99 @@ func runScript(idx int, sc c17script) *caseObs {
 		}
 		return true
 	}
+	// finishMsg: the dispatch of pm.o has returned (res == "") — record it and check what it did to the handlers
+	finishMsg := func(pm *pendingMsg, res string) bool {
+		o := pm.o
+		d := 9
+		if res == "" {
+			d = pm.d
+		}
+		emit(fmt.Sprintf("OMsg %s %d%%N", o.M.term(), d))
+		if ended(res, o.String()) {
+			return false
+		}
+		if !sc.Stream {
+			paths["dispatch:returns-"+[]string{"nil", "no-match", "consumer-blocked", "no-handler", "", "", "", "", "other-error"}[d]] = true
+		}
+		if len(r.st.writesSnapshot()) > pm.wBefore {
+			if r.st.faults() > pm.fBefore {
+				paths["dispatch:blocked-call-reply-write-fails:"+wmNames[r.wmode]] = true
+			} else {
+				paths["dispatch:blocked-call-reply-written:"+wmNames[r.wmode]] = true
+			}
+		}
+		for id, h := range r.live {
+			h.mu.Lock()
+			n := h.consults - pm.before[h]
+			if n != 1 {
+				h.bad = append(h.bad, fmt.Sprintf("filter consulted %d times for message id %d while registered", n, o.M.ID))
+			}
+			// what did the filter answer for this message?
+			var ans bb
+			k := h.consults - 1
+			if h.f.Kind == 0 {
+				ans = bb{false, true}
+				if int(o.M.Action) < len(h.f.Tab) {
+					ans = h.f.Tab[o.M.Action]
+				}
+			} else if k < h.f.K {
+				ans = h.f.A
+			} else {
+				ans = h.f.B
+			}
+			if n >= 1 && !ans.K {
+				// self-removal: closed under the table's lock, before dispatch returned
+				closed := h.pull()
+				cc := int(atomic.LoadInt32(&h.closerCalls))
+				want := 0
+				if h.cl != 0 {
+					want = 1
+				}
+				if cc != want || !closed {
+					h.bad = append(h.bad, fmt.Sprintf("after its filter answered keep=false for message id %d: %d close callback calls (want %d), queue closed = %v", o.M.ID, cc, want, closed))
+				}
+				delete(r.live, id)
+				paths["dispatch:keep-false-closes"] = true
+			}
+			h.mu.Unlock()
+		}
+		return true
+	}
+	// awaitPending: the blocked Write has been released; wait for that dispatch to return
+	awaitPending := func(pm *pendingMsg) string {
+		if sc.Stream {
+			if !r.st.waitIdle(opTimeout) {
+				return "hang"
+			}
+			return ""
+		}
+		select {
+		case <-pm.done:
+			return pm.res
+		case <-time.After(opTimeout):
+			return "hang"
+		}
+	}
+	// resumePeer: the peer reads again — the blocked Write (and the following ones) succeed
+	resumePeer := func() bool {
+		pm := r.pending
+		r.pending = nil
+		r.wmode = wmOK
+		r.st.setWriteMode(wmOK)
+		emit("OFault 0%N")
+		res := awaitPending(pm)
+		paths["dispatch:blocked-call-reply-write-blocked:then-peer-reads"] = true
+		return finishMsg(pm, res)
+	}
 	lastOp := ""
 loop:
 	for _, o := range sc.Ops {
-		if lastOp != "" && !probe(lastOp) {
+		if r.pending != nil && !(o.Kind == opClose || o.Kind == opPeerClose && !sc.Stream) {
+			if !resumePeer() {
+				break loop
+			}
+		}
+		if r.pending == nil && lastOp != "" && !probe(lastOp) {
 			break loop
 		}
 		lastOp = o.String()
@@ -765,82 +917,65 @@ loop:
 				continue // the process loop has returned: nothing reads the stream any more
 			}
 			m := o.M.message()
-			before := map[*hh]int{}
+			pm := &pendingMsg{o: o, before: map[*hh]int{}, d: 9}
 			for _, h := range r.live {
 				h.mu.Lock()
-				before[h] = h.consults
+				pm.before[h] = h.consults
 				h.mu.Unlock()
 			}
-			d := 9
 			var res string
-			wBefore, fBefore := len(r.st.writesSnapshot()), r.st.faults()
+			pm.wBefore, pm.fBefore = len(r.st.writesSnapshot()), r.st.faults()
 			if len(r.live) == 0 {
 				paths["dispatch:empty-table"] = true
 			}
+			blocked := false
 			if sc.Stream {
 				var wbuf writerBuf
 				m.Write(&wbuf)
 				r.st.feed(wbuf.b)
-				if !r.st.waitIdle(opTimeout) {
+				var ok bool
+				if blocked, ok = r.st.waitQuiet(opTimeout, true, nil); !ok {
 					res = "hang"
 				}
 			} else {
-				var err error
-				res = r.call(func() { err = r.dispatch(&m) })
-				d = dclass(err)
+				pm.done = make(chan struct{})
+				go func() {
+					defer close(pm.done)
+					defer func() {
+						if x := recover(); x != nil {
+							pm.res = fmt.Sprintf("panic: %v", x)
+						}
+					}()
+					pm.d = dclass(r.dispatch(&m))
+				}()
+				d := opTimeout
+				if !obs.Contract {
+					d = 400 * time.Millisecond
+				}
+				var ok bool
+				if blocked, ok = r.st.waitQuiet(d, false, pm.done); !ok {
+					res = "hang"
+				} else if !blocked {
+					<-pm.done
+					res = pm.res
+				}
 			}
-			emit(fmt.Sprintf("OMsg %s %d%%N", o.M.term(), d))
-			if ended(res, o.String()) {
+			if blocked {
+				// dispatch holds the table and waits in the Write of the reply to a Call it could not deliver
+				r.pending = pm
+				continue
+			}
+			if !finishMsg(pm, res) {
 				break loop
-			}
-			if !sc.Stream {
-				paths["dispatch:returns-"+[]string{"nil", "no-match", "consumer-blocked", "no-handler", "", "", "", "", "other-error"}[d]] = true
-			}
-			if len(r.st.writesSnapshot()) > wBefore {
-				if r.st.faults() > fBefore {
-					paths["dispatch:blocked-call-reply-write-fails:"+wmNames[r.wmode]] = true
-				} else {
-					paths["dispatch:blocked-call-reply-written:"+wmNames[r.wmode]] = true
-				}
-			}
-			for id, h := range r.live {
-				h.mu.Lock()
-				n := h.consults - before[h]
-				if n != 1 {
-					h.bad = append(h.bad, fmt.Sprintf("filter consulted %d times for message id %d while registered", n, o.M.ID))
-				}
-				// what did the filter answer for this message?
-				var ans bb
-				k := h.consults - 1
-				if h.f.Kind == 0 {
-					ans = bb{false, true}
-					if int(o.M.Action) < len(h.f.Tab) {
-						ans = h.f.Tab[o.M.Action]
-					}
-				} else if k < h.f.K {
-					ans = h.f.A
-				} else {
-					ans = h.f.B
-				}
-				if n >= 1 && !ans.K {
-					// self-removal: closed under the table's lock, before dispatch returned
-					closed := h.pull()
-					cc := int(atomic.LoadInt32(&h.closerCalls))
-					want := 0
-					if h.cl != 0 {
-						want = 1
-					}
-					if cc != want || !closed {
-						h.bad = append(h.bad, fmt.Sprintf("after its filter answered keep=false for message id %d: %d close callback calls (want %d), queue closed = %v", o.M.ID, cc, want, closed))
-					}
-					delete(r.live, id)
-					paths["dispatch:keep-false-closes"] = true
-				}
-				h.mu.Unlock()
 			}
 		case opClose, opPeerClose:
 			if procExited && o.Kind == opPeerClose {
 				continue
+			}
+			pend := r.pending
+			if pend != nil {
+				// handlers may still be closed by the pending dispatch itself, under the table's lock: hold no closer
+				o.Holds = nil
 			}
 			was := liveInSlotOrder()
 			if len(was) >= 2 {
@@ -867,8 +1002,30 @@ loop:
 			if r.cerr {
 				paths["shutdown:stream-close-fails"] = true
 			}
+			what := o.String()
+			// finishPending: the shutdown closed the stream first, which ends the blocked Write; the dispatch then
+			// finishes under the lock and the shutdown walks the table after it
+			finishPending := func(tag string) bool {
+				if pend == nil {
+					return true
+				}
+				r.pending = nil
+				if res != "" {
+					what += " while the dispatch of " + pend.o.String() + " was blocked in the Write of its reply on a stream whose peer does not read (only stream.Close() ends that Write)"
+					return true
+				}
+				paths["dispatch:blocked-call-reply-write-blocked:"+tag] = true
+				if !finishMsg(pend, awaitPending(pend)) {
+					return false
+				}
+				was = liveInSlotOrder()
+				return true
+			}
 			if o.Kind == opClose {
 				res = call(func() { r.e.Close() })
+				if !finishPending("then-Close") {
+					break loop
+				}
 				emit("OCloseAll false false")
 				paths["shutdown:Close:"+tbl] = true
 			} else {
@@ -896,9 +1053,12 @@ loop:
 				} else {
 					res = call(r.process)
 				}
+				if !finishPending("then-read-error") {
+					break loop
+				}
 				emit("OCloseAll true true")
 			}
-			if ended(res, o.String()) {
+			if ended(res, what) {
 				break loop
 			}
 			r.live = map[int]*hh{}
@@ -961,6 +1121,9 @@ loop:
 	if len(r.live) > maxLive {
 		maxLive = len(r.live)
 	}
+	if r.pending != nil && obs.End == 0 {
+		resumePeer()
+	}
 	if lastOp != "" && obs.End == 0 {
 		probe(lastOp)
 	}
@@ -995,6 +1158,7 @@ loop:
 		h.mu.Unlock()
 	}
 	// let held goroutines go
+	r.st.setWriteMode(wmOK)
 	for _, h := range r.hs {
 		h.mu.Lock()
 		if h.held {
@@ -1115,7 +1279,15 @@ func genScript(rng *hx.Rng, tier string) c17script {
 	}
 	for i := 0; i < n; i++ {
 		if faulty && (rng.Chance(0.18) || i == 1) {
-			sc.Ops = append(sc.Ops, sop{Kind: opFault, Mode: rng.Pick(wmOK, wmClosedPipe, wmClosedPipe, wmPartial, wmEOF, wmNoProgress, wmChunked, wmFullEOF), CErr: rng.Chance(0.25)})
+			f := sop{Kind: opFault, Mode: rng.Pick(wmOK, wmClosedPipe, wmClosedPipe, wmPartial, wmEOF, wmNoProgress, wmChunked, wmFullEOF, wmBlock, wmBlock), CErr: rng.Chance(0.25)}
+			sc.Ops = append(sc.Ops, f)
+			if f.Mode == wmBlock && made > 0 && !shut && rng.Chance(0.6) {
+				// Calls until some queue is full, then straight to a shutdown (or anything else: the peer then reads again)
+				for k := rng.Intn(3) + 1; k > 0; k-- {
+					msgID++
+					sc.Ops = append(sc.Ops, sop{Kind: opMsg, M: mspec{Typ: 1, Service: 1, Object: 1, Action: uint32(rng.Intn(3)), ID: msgID}})
+				}
+			}
 		}
 		x := rng.Intn(100)
 		switch {
@@ -1302,7 +1474,9 @@ func fixedScripts() []c17script {
 func requiredPaths17() []string {
 	out := []string{"make:free-slot", "make:append", "remove:ok", "remove:negative-id", "remove:beyond-table", "remove:empty-slot",
 		"dispatch:empty-table", "dispatch:returns-nil", "dispatch:returns-no-match", "dispatch:returns-consumer-blocked", "dispatch:keep-false-closes",
-		"shutdown:Close:empty-table", "shutdown:Close:occupied-table", "shutdown:stream-close-fails"}
+		"shutdown:Close:empty-table", "shutdown:Close:occupied-table", "shutdown:stream-close-fails",
+		"dispatch:blocked-call-reply-write-blocked:then-Close", "dispatch:blocked-call-reply-write-blocked:then-read-error",
+		"dispatch:blocked-call-reply-write-blocked:then-peer-reads"}
 	for _, v := range pcNames {
 		out = append(out, "shutdown:read-error:"+v+":empty-table", "shutdown:read-error:"+v+":occupied-table")
 	}
@@ -1440,7 +1614,11 @@ func stressRound(seed uint64, round int) (fails []string, stats map[string]int) 
 	faultAt, faultMode := -1, wmOK
 	if rng.Chance(0.5) {
 		faultAt = rng.Intn(shutAfter + 1)
-		faultMode = rng.Pick(wmClosedPipe, wmClosedPipe, wmPartial, wmEOF, wmNoProgress, wmChunked, wmFullEOF)
+		faultMode = rng.Pick(wmClosedPipe, wmClosedPipe, wmPartial, wmEOF, wmNoProgress, wmChunked, wmFullEOF, wmBlock)
+		if faultMode == wmBlock && peerClose {
+			// a process goroutine blocked in Write never sees the read error: only Close() ends such a round
+			faultMode = wmClosedPipe
+		}
 		if rng.Chance(0.3) {
 			st.setCloseErr(errors.New("harness: close of a broken connection"))
 		}
